@@ -510,4 +510,197 @@ Proof.
            { intros st0 t0 st0' r0 I0 C0 K0 R0. apply (IH _ _ _ _ _ _ _ _ _ Hfa I0 C0 K0 R0). }
            split; [exact A|]. split; [eapply ext_trans; eauto|]. eapply RStruct; eauto.
 Qed.
+
+(* ------------------------------------------------------------------ reading the finished graph back: unroll = elab *)
+
+Lemma unroll_list heap sd e : unroll heap sd (PList e) = DList (unroll heap sd e).
+Proof. destruct sd; reflexivity. Qed.
+Lemma unroll_set heap sd e : unroll heap sd (PSet e) = DSet (unroll heap sd e).
+Proof. destruct sd; reflexivity. Qed.
+Lemma unroll_map heap sd k v : unroll heap sd (PMap k v) = DMap (unroll heap sd k) (unroll heap sd v).
+Proof. destruct sd; reflexivity. Qed.
+Lemma unroll_base heap sd c b : unroll heap sd (PBase c b) = DBase c b.
+Proof. destruct sd; reflexivity. Qed.
+Lemma unroll_struct_0 heap a : unroll heap 0 (PStruct a) = DCut.
+Proof. reflexivity. Qed.
+Lemma unroll_struct_S heap sd a nd : nth_error heap a = Some nd ->
+  unroll heap (S sd) (PStruct a) = DStruct (pn_tname nd) (pn_sname nd) (map (fun mf => (fst mf, unroll heap sd (snd mf))) (pn_fields nd)) (pn_keys nd) (pn_annos nd).
+Proof. intros H. simpl. rewrite H. reflexivity. Qed.
+
+Lemma desc_code_unroll heap sd r : desc_code (unroll heap sd r) = pref_code r.
+Proof.
+  destruct r; try (destruct sd; reflexivity).
+  destruct sd; [reflexivity|]. simpl. destruct (nth_error heap a); reflexivity.
+Qed.
+
+Lemma tree_of_elab fi f pkg ti tf : tree_of p fi f pkg = Some (ti, tf) ->
+  match pkg with [] => Some f | _ => option_map snd (get_ref p f pkg) end = Some tf.
+Proof. unfold tree_of. destruct pkg; [intros H; inversion H; reflexivity|]. intros H. rewrite H. reflexivity. Qed.
+
+Lemma pkeys_cons mr l : pkeys_of (mr :: l) = reg_keys (o_mapway o) (m_id (fst mr)) (m_name (fst mr)) (m_alias (fst mr)) ++ pkeys_of l.
+Proof. reflexivity. Qed.
+
+(* the fields of a finished node against elab_fields *)
+Lemma fields_unroll heap sd target ti tf kind root (rec : texpr -> option tdesc) :
+  (forall fd r d, resolves heap target ti tf (f_type fd) r -> rec (f_type fd) = Some d -> unroll heap sd r = d) ->
+  forall fs pfs ms ks,
+  Forall2 (field_ok heap target ti tf kind) (kept_fields target fs) pfs ->
+  elab_fields rec true p o tf kind root target fs = Some (ms, ks) ->
+  map (fun mf => (fst mf, unroll heap sd (snd mf))) pfs = ms /\ pkeys_of pfs = ks.
+Proof.
+  intros Hrec. induction fs as [|fd fs IH]; intros pfs ms ks Hf; simpl.
+  - intros H. inversion H. subst. inversion Hf. subst. split; reflexivity.
+  - destruct (f_id fd <? 0); [discriminate|]. unfold kept_fields in Hf. simpl in Hf. destruct (field_kept target fd) eqn:Ek.
+    + inversion Hf as [|x mr l l' [Hm Hr] Hrest]. subst.
+      destruct (rec (f_type fd)) as [d|] eqn:Er; [|discriminate].
+      destruct (elab_fields rec true p o tf kind root target fs) as [[ms' ks']|] eqn:Ef; [|discriminate].
+      intros H. inversion H. subst. destruct (IH l' ms' ks' Hrest eq_refl) as [I1 I2].
+      pose proof (Hrec fd (snd mr) d Hr Er) as Hu.
+      assert (Hmeta : fst mr = elab_meta true p o tf kind root fd d).
+      { unfold elab_meta. rewrite meta_root_irrelevant. rewrite Hm. rewrite <- Hu. rewrite desc_code_unroll. reflexivity. }
+      split.
+      * simpl. rewrite I1, Hu, Hmeta. reflexivity.
+      * rewrite pkeys_cons, I2, Hmeta. reflexivity.
+    + intros H. apply IH; assumption.
+Qed.
+
+Section Closed.
+Variable heap : list pnode.
+Hypothesis Hclosed : forall a nd, nth_error heap a = Some nd -> node_ok heap nd.
+
+Lemma unroll_elab : forall fuel sd fi f rdepth target t r e,
+  get_file p fi = Some f -> resolves heap target fi f t r ->
+  elab_type true fuel p o f sd rdepth target t = Some e -> unroll heap sd r = e.
+Proof.
+  induction fuel as [|fuel IH]; intros sd fi f rdepth target t r e Hf Hr; [discriminate|].
+  destruct t as [b|t1|t1|k v|n]; cbn [elab_type]; inversion Hr; subst.
+  - intros H. inversion H. apply unroll_base.
+  - destruct (elab_type true fuel p o f sd (rdepth + 1) target t1) eqn:E; [|discriminate]. intros H. inversion H.
+    rewrite unroll_list. f_equal. eapply IH; eauto.
+  - destruct (elab_type true fuel p o f sd (rdepth + 1) target t1) eqn:E; [|discriminate]. intros H. inversion H.
+    rewrite unroll_set. f_equal. eapply IH; eauto.
+  - destruct (elab_type true fuel p o f sd (rdepth + 1) target k) eqn:E1; [|discriminate].
+    destruct (elab_type true fuel p o f sd (rdepth + 1) target v) eqn:E2; [|discriminate]. intros H. inversion H.
+    rewrite unroll_map. f_equal; eapply IH; eauto.
+  - (* typedef *)
+    match goal with Hs : split_last_dot _ = _, Ht : tree_of p fi f _ = Some _, Hl : lookup _ (fl_typedefs _) = Some _, Hres : resolves _ _ _ _ _ r |- _ =>
+      rewrite Hs, (tree_of_elab _ _ _ _ _ Ht), Hl; intros H; eapply IH; [eapply tree_of_file; eauto|exact Hres|exact H] end.
+  - (* enum *)
+    match goal with Hs : split_last_dot _ = _, Ht : tree_of p fi f _ = Some _, Hl : lookup _ (fl_typedefs _) = None, He : lookup _ (fl_enums _) = Some _ |- _ =>
+      rewrite Hs, (tree_of_elab _ _ _ _ _ Ht), Hl, He; intros H; inversion H; apply unroll_base end.
+  - (* struct-like *)
+    match goal with Hs : split_last_dot _ = _, Ht : tree_of p fi f _ = Some (?ti, ?tf), Hl : lookup _ (fl_typedefs _) = None, He : lookup _ (fl_enums _) = None,
+                    Hg : get_slike _ _ = Some ?s, Hn : nth_error heap _ = Some ?nd |- _ =>
+      rewrite Hs, (tree_of_elab _ _ _ _ _ Ht), Hl, He, Hg; pose proof (tree_of_file _ _ _ _ _ Hf Ht) as Htf;
+      rename Hn into Hnd; rename Hg into Hsl end.
+    destruct sd as [|sd]; [intros H; inversion H; reflexivity|].
+    destruct (elab_fields _ true p o tf (s_kind s) (rdepth =? 0) (pn_target nd) (s_fields s)) as [[ms ks]|] eqn:Ef; [|discriminate].
+    intros H. inversion H. subst e. rewrite (unroll_struct_S _ _ _ _ Hnd).
+    destruct (Hclosed _ _ Hnd) as [tf0 [s0 [G1 [G2 [G3 [G4 G5]]]]]].
+    rewrite Htf in G1. inversion G1. subst tf0. rewrite Hsl in G2. inversion G2. subst s0.
+    destruct (fields_unroll heap sd (pn_target nd) (pn_file nd) tf (s_kind s) (rdepth =? 0)
+                (elab_type true fuel p o tf sd (rdepth + 1) (pn_target nd))) with (fs := s_fields s) (pfs := pn_fields nd) (ms := ms) (ks := ks) as [F1 F2]; auto.
+    { intros fd r0 d Hres Hel. eapply IH; eauto. }
+    rewrite F1, G5, F2, G3. reflexivity.
+Qed.
+End Closed.
+
+(* ------------------------------------------------------------------ functions *)
+
+Definition alldone (st : pstate) : Prop := forall a nd, nth_error (ps_heap st) a = Some nd -> pn_done nd = true.
+
+Lemma ext_alldone st st' : ext st st' -> alldone st -> alldone st'.
+Proof.
+  intros [E1 [E2 [E3 _]]] Hd a nd' Hn. destruct (Nat.lt_ge_cases a (length (ps_heap st))) as [Hl|Hl]; [|apply (E3 a nd' Hn Hl)].
+  assert (Hs : nth_error (ps_heap st) a <> None) by (apply nth_error_Some; exact Hl).
+  destruct (nth_error (ps_heap st) a) as [nd|] eqn:En; [|contradiction].
+  destruct (E2 a nd En) as [nd2 [H2 [_ [D2 _]]]]. rewrite Hn in H2. inversion H2. subst. rewrite D2. apply (Hd a nd En).
+Qed.
+
+Lemma has_base_false st r : INV st -> alldone st -> node_has_request_base st r = false.
+Proof.
+  intros [Hh _] Hd. destruct r; try reflexivity. simpl. destruct (nth_error (ps_heap st) a) as [nd|] eqn:En; [|reflexivity].
+  destruct (Hh a nd En (Hd a nd En)) as [tf [s [_ [_ [_ [Hf _]]]]]].
+  induction Hf as [|fd mr l l' [Hm _] _ IH]; [reflexivity|]. simpl. rewrite IH, orb_false_r. rewrite Hm.
+  unfold elab_meta_code. simpl. rewrite Hbase. reflexivity.
+Qed.
+
+Definition fn_scoped (f : ifile) (fn : ifunc) : Prop :=
+  names_ok p f (fn_ret fn) = true /\ (forall a, In a (fn_args fn) -> names_ok p f (f_type a) = true) /\
+  (forall a, In a (fn_throws fn) -> names_ok p f (f_type a) = true).
+
+Definition req_res (heap : list pnode) (fi : Z) (f : ifile) (fn : ifunc) (q : option pwrap) : Prop :=
+  if o_fnmode o =? 2 then q = None
+  else exists a rest r, fn_args fn = a :: rest /\ resolves heap 0 fi f (f_type a) r /\
+                        q = Some (PWrap [(empty_meta (f_id a) (f_name a) [], r)] [(f_name a, f_id a)]).
+
+Definition resp_res (heap : list pnode) (fi : Z) (f : ifile) (fn : ifunc) (w : option pwrap) : Prop :=
+  if o_fnmode o =? 1 then w = None
+  else exists r, resolves heap 1 fi f (fn_ret fn) r /\
+       match fn_throws fn with
+       | [] => w = Some (PWrap [(empty_meta 0 [] [], r)] [([], 0)])
+       | e :: _ => exists re, resolves heap 2 fi f (f_type e) re /\
+                   w = Some (PWrap [(empty_meta 0 [] [], r); (empty_meta (f_id e) (f_name e) (f_name e), re)] [([], 0); (f_name e, f_id e)])
+       end.
+
+Definition func_res (heap : list pnode) (x : Z * ifile * ifunc) (pf : pfunc) : Prop :=
+  let '(fi, f, fn) := x in
+  pf_name pf = fn_name fn /\ pf_oneway pf = fn_oneway fn /\ pf_hasbase pf = false /\ fn_args fn <> [] /\
+  req_res heap fi f fn (pf_req pf) /\ resp_res heap fi f fn (pf_resp pf).
+
+Lemma func_res_ext heap heap' x pf :
+  (forall a nd, nth_error heap a = Some nd -> exists nd', nth_error heap' a = Some nd' /\ same_label nd nd') ->
+  func_res heap x pf -> func_res heap' x pf.
+Proof.
+  intros Hl. destruct x as [[fi f] fn]. intros [A [B [C [D [E F]]]]]. repeat split; try assumption.
+  - unfold req_res in *. destruct (o_fnmode o =? 2); [exact E|]. destruct E as [a [rest [r [E1 [E2 E3]]]]].
+    exists a, rest, r. repeat split; try assumption. eapply resolves_ext; eauto.
+  - unfold resp_res in *. destruct (o_fnmode o =? 1); [exact F|]. destruct F as [r [F1 F2]]. exists r. split; [eapply resolves_ext; eauto|].
+    destruct (fn_throws fn); [exact F2|]. destruct F2 as [re [F3 F4]]. exists re. split; [eapply resolves_ext; eauto|exact F4].
+Qed.
+
+Lemma pfunction_spec st fi f cid names fn st' pf :
+  get_file p fi = Some f -> fn_scoped f fn -> INV st -> alldone st -> cache_has st cid fi ->
+  pfunction p o st fi f cid names fn = Some (st', pf) ->
+  INV st' /\ ext st st' /\ alldone st' /\ func_res (ps_heap st') (fi, f, fn) pf.
+Proof.
+  intros Hf [Sr [Sa St]] Hinv Hd Hhas. unfold pfunction. destruct (existsb (name_eqb (fn_name fn)) names); [discriminate|].
+  destruct (fn_args fn) as [|a rest] eqn:Eargs; [discriminate|].
+  (* request *)
+  assert (Hreq : forall X, (if o_fnmode o =? 2 then Some (st, None, false)
+                            else match prequest p o st fi f cid fn with Some (st1, w, b) => Some (st1, Some w, b) | None => None end) = Some X ->
+                 let '(st1, q, hb) := X in INV st1 /\ ext st st1 /\ alldone st1 /\ hb = false /\ req_res (ps_heap st1) fi f fn q).
+  { intros [[st1 q] hb]. unfold req_res. destruct (o_fnmode o =? 2).
+    - intros H. inversion H. subst. split; [exact Hinv|]. split; [apply ext_refl|]. split; [exact Hd|]. split; reflexivity.
+    - unfold prequest. rewrite Eargs.
+      destruct (ptype parse_fuel p o st fi f cid 0 0 (f_type a)) as [[st2 r]|] eqn:Ep; [|discriminate].
+      intros H. inversion H. subst.
+      destruct (ptype_spec _ _ _ _ _ _ _ _ _ _ Hf Hinv Hhas (Sa a (or_introl eq_refl)) Ep) as [A [B C]].
+      pose proof (ext_alldone _ _ B Hd) as D.
+      split; [exact A|]. split; [exact B|]. split; [exact D|]. split; [apply has_base_false; assumption|].
+      exists a, rest, r. split; [reflexivity|]. split; [exact C|reflexivity]. }
+  match goal with |- match ?T with _ => _ end = _ -> _ => destruct T as [[[st1 q] hb]|] eqn:Erq; [|discriminate] end.
+  specialize (Hreq _ eq_refl). simpl in Hreq. destruct Hreq as [A1 [B1 [D1 [Hhb Q1]]]].
+  assert (Hresp : forall X, (if o_fnmode o =? 1 then Some (st1, None)
+                             else match presponse p o st1 fi f cid fn with Some (st2, w) => Some (st2, Some w) | None => None end) = Some X ->
+                 let '(st2, w) := X in INV st2 /\ ext st1 st2 /\ alldone st2 /\ resp_res (ps_heap st2) fi f fn w).
+  { intros [st2 w]. unfold resp_res. destruct (o_fnmode o =? 1).
+    - intros H. inversion H. subst. split; [exact A1|]. split; [apply ext_refl|]. split; [exact D1|reflexivity].
+    - unfold presponse.
+      destruct (ptype parse_fuel p o st1 fi f cid 0 1 (fn_ret fn)) as [[st3 r]|] eqn:Ep; [|discriminate].
+      destruct (ptype_spec _ _ _ _ _ _ _ _ _ _ Hf A1 (cache_has_ext _ _ _ _ B1 Hhas) Sr Ep) as [A [B C]].
+      destruct (fn_throws fn) as [|e thr] eqn:Ethr.
+      + intros H. inversion H. subst. split; [exact A|]. split; [exact B|]. split; [exact (ext_alldone _ _ B D1)|]. exists r. split; [exact C|reflexivity].
+      + destruct (ptype parse_fuel p o st3 fi f cid 0 2 (f_type e)) as [[st4 re]|] eqn:Ep2; [|discriminate].
+        intros H. inversion H. subst.
+        destruct (ptype_spec _ _ _ _ _ _ _ _ _ _ Hf A (cache_has_ext _ _ _ _ B (cache_has_ext _ _ _ _ B1 Hhas)) (St e (or_introl eq_refl)) Ep2) as [A2 [B2 C2]].
+        split; [exact A2|]. split; [exact (ext_trans _ _ _ B B2)|]. split; [exact (ext_alldone _ _ (ext_trans _ _ _ B B2) D1)|].
+        exists r. split; [eapply resolves_ext; [apply (ext_labels _ _ B2)|exact C]|]. exists re. split; [exact C2|reflexivity]. }
+  match goal with |- match ?T with _ => _ end = _ -> _ => destruct T as [[st2 w]|] eqn:Ers; [|discriminate] end.
+  specialize (Hresp _ eq_refl). simpl in Hresp. destruct Hresp as [A2 [B2 [D2 R2]]].
+  intros H. inversion H. subst. split; [exact A2|]. split; [eapply ext_trans; eauto|]. split; [exact D2|].
+  simpl. rewrite Eargs. repeat split; try assumption; try discriminate.
+  unfold req_res in *. destruct (o_fnmode o =? 2); [exact Q1|]. destruct Q1 as [a0 [rest0 [r0 [Q2 [Q3 Q4]]]]].
+  exists a0, rest0, r0. repeat split; try assumption. eapply resolves_ext; [apply (ext_labels _ _ B2)|exact Q3].
+Qed.
 End Refine.
